@@ -210,6 +210,10 @@ def lit_src(v, ty):
         if v == -math.inf:
             return "%s::infinity_negative()" % k
         body = (fmt_f32(abs(v)) if k == "Float32" else fmt_f64(abs(v)))
+        if k == "Float32" and abs(v) == 3.4028234663852886e38:
+            # the shortest round-trip spelling 3.4028235e38 exceeds f32::MAX as a real number and is rejected by the
+            # front end ("number does not fit"); this spelling rounds to the same value
+            body = "340282340000000000000000000000000000000"
         if "." not in body:
             body += ".0"
         if math.copysign(1.0, v) < 0:
